@@ -22,6 +22,8 @@ mod c13;
 mod c18;
 mod c15;
 mod flexcorr;
+mod gridfmt;
+mod gridcorr;
 
 use common::*;
 
@@ -79,6 +81,10 @@ fn main() {
         c03::worker(cfg.seed, from, to);
         return;
     }
+    if prop == "GRIDWITNESS" {
+        gridcorr::witnesses();
+        return;
+    }
     let mut out = Out::new(&out_dir);
     let extra = match prop.as_str() {
         "C02" => c02::run(&cfg, &mut out),
@@ -103,6 +109,7 @@ fn main() {
         "C18" => c18::run(&cfg, &mut out),
         "C15" => c15::run(&cfg, &mut out),
         "FLEX" => flexcorr::run(&cfg, &mut out),
+        "GRID" => gridcorr::run(&cfg, &mut out),
         _ => {
             eprintln!("unknown property {prop}");
             std::process::exit(2)
